@@ -15,9 +15,6 @@ import MpirProofs.Lemmas.MpfStrAcc
 namespace Mpir.MpfStr
 open Mpir Mpir.Mpf
 
-/-- the exact rational an accepted string denotes: (-1)^neg · mantissa · base^(exponent − fraction length) -/
-def Parsed.value (p : Parsed) : ℚ := sgn p.neg * (p.mant : ℚ) * (p.base : ℚ) ^ p.scale
-
 /-! ## mpn_pow_1_highpart: base^e by repeated squaring with truncation to P limbs -/
 
 /-- The value returned by mpn_pow_1_highpart — at most P limbs `r` (top limb non-zero) and a count `ign` of
